@@ -79,7 +79,10 @@ class Driver(object):
         self.nfresh = 0
         self.last = None
 
-    def fresh(self):
+    was_armed = False
+    armed = False
+
+    def fresh(self, trap=False):
         """Initial keyboard state: a new Session every 200 histories, otherwise the ring's own constructor re-run."""
         if self.s is None or self.nfresh % 200 == 0:
             if self.s:
@@ -100,6 +103,19 @@ class Driver(object):
             kb._expansion_vessel = []
         self.nfresh += 1
         self.reset = True
+        # configuration: a user-defined key trap (KEY 15) armed on Ctrl + the physical key 'a'. No keystroke of the driver carries a
+        # modifier, so the trap never fires and every key still goes to the buffer; the keystrokes are then delivered while a
+        # statement runs, which is when the trap filters see them (round-3 seeded change C37c let an armed trap swallow its
+        # key whatever the modifiers)
+        self.armed = trap
+        if trap:
+            from pcbasic.basic.base import scancode as sc
+            r = self.s.ex('KEY 15,CHR$(4)+CHR$(%d):KEY(15) ON' % sc.a)
+            if r[0] != 'ok':
+                raise core.MachineryError('arming KEY 15 failed: %r' % (r,))
+        elif self.was_armed:
+            self.s.ex('KEY(15) OFF')
+        self.was_armed = trap
         self.last = self.observe()
 
     def observe(self):
@@ -120,12 +136,29 @@ class Driver(object):
         if op == 'press':
             chars, scan = a['k']
             c = UNI.get(tuple(chars)) or u''.join(chr(x) for x in chars)
-            self.wq.put(self.signals.Event(self.signals.KEYB_DOWN, (c, scan, [])))
-            try:
-                self.s.impl.queues.check_events()
-            except BaseException as ex:  # noqa
-                e['kind'] = 'internal'
-                e['err'] = repr(ex)
+            if self.armed:
+                # delivered at the first statement boundary of a running (direct) line: the interpreter polls with its trap filters on
+                done = []
+
+                def hook(interp):
+                    if not done:
+                        done.append(1)
+                        self.wq.put(self.signals.Event(self.signals.KEYB_DOWN, (c, scan, [])))
+                self.s.hooks.append(hook)
+                try:
+                    r0 = self.s.ex('X9=0')
+                finally:
+                    self.s.hooks.remove(hook)
+                if r0[0] != 'ok':
+                    e['kind'] = 'internal' if r0[0] == 'internal' else r0[0]
+                    e['err'] = repr(r0[1])
+            else:
+                self.wq.put(self.signals.Event(self.signals.KEYB_DOWN, (c, scan, [])))
+                try:
+                    self.s.impl.queues.check_events()
+                except BaseException as ex:  # noqa
+                    e['kind'] = 'internal'
+                    e['err'] = repr(ex)
             stmt = 'press %r' % (c,)
         elif op == 'inkey':
             stmt = 'INKEY$'
@@ -248,8 +281,11 @@ def run(ctx):
     rng = ctx.rng
     pool = _keypool()
     nhist = ctx.pick(100, 1500)
+    narmed = 0
     for h in range(nhist):
-        d.fresh()
+        trap = rng.random() < 0.3
+        narmed += trap
+        d.fresh(trap=trap)
         ppress = rng.choice([0.35, 0.5, 0.5, 0.7, 0.9])
         ppoke = rng.choice([0.0, 0.05, 0.1, 0.2])
         written = set()
@@ -311,6 +347,7 @@ def run(ctx):
     ctx.cov['traces_validated_against_impl'] += nwalk + nhist
     ctx.cov['replay_walks'] = nwalk
     ctx.cov['random_histories'] = nhist
+    ctx.cov['histories_with_armed_user_key_trap'] = narmed
     ctx.cov['events_replay'] = nreplay
     ctx.cov['events_random'] = len(events) - nreplay
     full = sum(1 for e in events if e['op'] == 'press' and (e['bios'][2] - e['bios'][0]) % 32 == 30)
